@@ -79,6 +79,10 @@ def build(bits, width):
     sub2.set_handler(h)
     if sub2_disabled:
         sub2.disable()
+    hsub = alpha.create_sub_command("help")            # a sub-command that happens to be called like the help command
+    hsub.set_description("Explains alpha")
+    hsub.add_option("topic", "t", Option.REQUIRED_VALUE, "Topic")
+    hsub.set_handler(h)
     beta = cfg.create_command("beta")
     beta.set_handler(h)
     if beta_hidden:
@@ -182,11 +186,55 @@ def _help_case(bits, width):
     return s0 == 0 and o0 == _render(ApplicationHelp(app), width) and not calls
 
 
+def _inherited_case(bits, width):
+    (sub1_hidden, sub2_disabled, beta_hidden, gamma_disabled, d_alpha, d_opt, d_arg, d_par, mode_opt, opt_default, mode_par, arg_multi, arg_default, long_pref) = bits
+    app, calls = build(bits, width)
+    alpha = app.get_command("alpha")
+    # ---- a sub-command without parameters of its own: everything it lists is inherited
+    if not sub2_disabled:
+        sub2 = alpha.get_sub_command("sub2")
+        page = _render(CommandHelp(sub2), width)
+        if not _fits(page, width):
+            return False
+        raw_page, page = page, _flat(page)
+        for label in ("<first>", "--par", "-p", "--help", "-h", "--quiet"):
+            if label not in page:
+                return False
+        if DESCS[d_arg] is not None and DESCS[d_arg].split()[0] not in page:
+            return False
+        s1, o1, e1 = _run(app, ["help", "alpha", "sub2"])
+        s2, o2, e2 = _run(app, ["alpha", "sub2", "-h"])
+        if (s1, s2) != (0, 0) or o1 != o2 or o1 != raw_page or calls:
+            return False
+    # ---- a sub-command named 'help'
+    hsub = alpha.get_sub_command("help")
+    raw_page = _render(CommandHelp(hsub), width)
+    page = _flat(raw_page)
+    if not _fits(raw_page, width) or "--topic" not in page or "-t" not in page or "<first>" not in page or "--par" not in page:
+        return False
+    s1, o1, e1 = _run(app, ["help", "alpha", "help"])
+    s2, o2, e2 = _run(app, ["alpha", "help", "--help"])
+    s3, o3, e3 = _run(app, ["alpha", "help", "-h"])
+    if (s1, s2, s3) != (0, 0, 0) or o1 != raw_page or o2 != raw_page or o3 != raw_page or calls:
+        return False
+    return True
+
+
+def pages_inherited(b1: bool, d_arg: int, d_par: int, mode_par: int, opt_default: bool, long_pref: bool) -> bool:
+    """
+    pre: 0 <= d_arg <= 3 and 0 <= d_par <= 3 and 0 <= mode_par <= 3
+    post: _
+    """
+    bits = (False, conc_bool(b1), False, False, 1, 1, conc_int(d_arg, 0, 3), conc_int(d_par, 0, 3), 1, conc_bool(opt_default), conc_int(mode_par, 0, 3), False, False, conc_bool(long_pref))
+    return untraced(_inherited_case, bits, PART["width"])
+
+
 def pages(b0: bool, b1: bool, b2: bool, b3: bool, d_alpha: int, d_opt: int, d_arg: int, d_par: int, mode_opt: int, opt_default: bool, mode_par: int,
           arg_multi: bool, arg_default: bool, long_pref: bool) -> bool:
     """
     pre: 0 <= d_alpha <= 3 and 0 <= d_opt <= 3 and 0 <= d_arg <= 3 and 0 <= d_par <= 3 and 0 <= mode_opt <= 3 and 0 <= mode_par <= 3
     pre: d_alpha == PART["d_alpha"] and d_par == PART["d_par"] and mode_par == PART["mode_par"]
+    pre: PART.get("long_pref") is None or long_pref == PART["long_pref"]
     pre: PART.get("hide") is None or (b0 == PART["hide"][0] and b1 == PART["hide"][1] and b2 == PART["hide"][2] and b3 == PART["hide"][3])
     post: _
     """
@@ -233,11 +281,14 @@ def conditions(tier):
     combos = [(0, 2, 1), (3, 0, 3)] if quick else [(0, 2, 1), (3, 0, 3), (1, 1, 2), (2, 3, 0), (0, 0, 3), (1, 2, 2)]
     for w in widths:
         for d_alpha, d_par, mode_par in combos:
-            for hide in ([(False, False, False, False), (True, True, True, True)] if quick else [(False, False, False, False), (True, True, True, True), (True, False, False, True), (False, True, True, False)]):
-                conds.append({"name": "pages[w=%d,alpha=%d,par=%d/%d%s]" % (w, d_alpha, d_par, mode_par, "" if hide is None else ",hide=" + "".join("1" if x else "0" for x in hide)), "fn": pages, "timeout": t,
-                              "part": {"width": w, "d_alpha": d_alpha, "d_par": d_par, "mode_par": mode_par, "hide": hide},
+            for hide, lp in [(h_, l_) for h_ in ([(False, False, False, False), (True, True, True, True)] if quick else [(False, False, False, False), (True, True, True, True), (True, False, False, True), (False, True, True, False)]) for l_ in (False, True)]:
+                conds.append({"name": "pages[w=%d,alpha=%d,par=%d/%d%s,%s]" % (w, d_alpha, d_par, mode_par, "" if hide is None else ",hide=" + "".join("1" if x else "0" for x in hide), "long" if lp else "short"), "fn": pages, "timeout": t,
+                              "part": {"width": w, "d_alpha": d_alpha, "d_par": d_par, "mode_par": mode_par, "hide": hide, "long_pref": lp},
                               "bounds": "terminal width %d; parent description kind %d, parent option description kind %d / value mode %d; %s; symbolic: option/argument description kinds, child option value mode, defaults, multi-valued argument, name preference" % (
                                   w, d_alpha, d_par, mode_par, "hidden/disabled bits symbolic" if hide is None else "hidden sub1/disabled sub2/hidden beta/disabled gamma = %r" % (hide,))})
+    for w in widths:
+        conds.append({"name": "pages_inherited[w=%d]" % w, "fn": pages_inherited, "timeout": t, "part": {"width": w},
+                      "bounds": "terminal width %d; pages of a sub-command that has no parameters of its own (all inherited) and of a sub-command named 'help', directly and through both help routes; symbolic: description kinds of the inherited argument and option, its value mode, default, name preference, sub-command disabled" % w})
     for lo, hi in ([(30, 110)] if quick else [(30, 120), (121, 210), (211, 300)]):
         conds.append({"name": "paragraph_width[%d..%d]" % (lo, hi), "fn": paragraph_width, "timeout": t, "part": {"lo": lo, "hi": hi},
                       "bounds": "Paragraph and LabeledParagraph: every width in [%d,%d], indentation {0,4,8}, {1,12,40} words" % (lo, hi)})
